@@ -235,6 +235,10 @@ class KeywordIndex(BaseIndexMixin, Persistent):
                     len(word_idx) >= self.tree_threshold):
                 # Convert to a TreeSet.
                 idx[word] = TreeSet(word_idx)
+                # Empty the replaced set: a concurrent transaction that
+                # still modifies it then gets a conflict instead of having
+                # its change merged into an object nobody refers to.
+                word_idx.clear()
 
     def _insert_reverse(self, docid, words):
         """ add words to forward index """
